@@ -19,12 +19,20 @@ TDEFS = 'TDirsDef == {' + ', '.join('<<' + ', '.join('"%s"' % c for c in t) + '>
 
 
 
+# names with characters the build-file writers escape (blank, '#', '$'): only
+# in the generated cases (the exhaustive design check keeps the small sets)
+XNAMES = NAMES + ['a b', 'c#d']
+XSTEMS = STEMS + ['my mod', 'x$y', 't#1']
+
+
 def cfg(mode, maxdepth=2, maxdirs=2, bug=False):
     c = ('CONSTANTS\n Names = {%s}\n Stems = {%s}\n Exts = {%s}\n'
          ' MaxDepth = %d\n MaxDirs = %d\n DotsUnescaped = %s\n'
          ' TDirs <- TDirsDef\n' % (
-             ', '.join(json.dumps(x) for x in NAMES),
-             ', '.join(json.dumps(x) for x in STEMS),
+             ', '.join(json.dumps(x) for x in (NAMES if mode == 'mc'
+                                               else XNAMES)),
+             ', '.join(json.dumps(x) for x in (STEMS if mode == 'mc'
+                                               else XSTEMS)),
              ', '.join(json.dumps(x) for x in EXTS), maxdepth, maxdirs,
              'TRUE' if bug else 'FALSE'))
     if mode == 'mc':
@@ -353,7 +361,7 @@ def main(argv):
     nontriv = sum(1 for c in cases if len({json.dumps(s, sort_keys=True)
                                            for s in c['sources']}) > 1)
     ck.assumptions += ['component names: %s; stems: %s; extensions: %s; '
-                       'literal PAR excluded' % (NAMES, STEMS, EXTS)]
+                       'literal PAR excluded' % (XNAMES, XSTEMS, EXTS)]
     ck.finish(rule='cases = TLC -simulate walks of ObjNames_Gen (2-3 sources '
               'that are neighbours of each other, submodule depth 0..2, 5 '
               'target kinds, intermediate_dirs on/off); non-trivial = at '
